@@ -171,6 +171,11 @@ pub struct Mon {
     outstanding: HashMap<K32, u64>,
     ever_stalled: bool,
     finished_by_itself: bool,
+    /// peers for which a failure was delivered while their request was unanswered
+    failed: HashSet<K32>,
+    /// candidates the lookup learned of from answers it accepted (answer of a contacted peer that
+    /// had neither answered nor failed before, delivered before the lookup finished)
+    learned: HashSet<K32>,
     pub fails: Vec<(String, String)>,
     /// design observations (reported under the signature prefix "note-C10", never a violation)
     pub notes: Vec<String>,
@@ -185,6 +190,8 @@ impl Mon {
             target,
             initial_all: initial.to_vec(),
             reported: vec![],
+            failed: HashSet::new(),
+            learned: HashSet::new(),
             contacted: HashSet::new(),
             answered: HashSet::new(),
             outstanding: HashMap::new(),
@@ -258,6 +265,11 @@ impl Mon {
         }
     }
     fn on_success(&mut self, p: &K32, reps: &[(K32, bool)]) {
+        if self.contacted.contains(p) && !self.answered.contains(p) && !self.failed.contains(p) && !self.finished_by_itself {
+            for (k, _) in reps {
+                self.learned.insert(*k);
+            }
+        }
         if self.contacted.contains(p) {
             self.answered.insert(*p);
         }
@@ -265,6 +277,9 @@ impl Mon {
         self.reported.extend(reps.iter().cloned());
     }
     fn on_failure(&mut self, p: &K32) {
+        if self.contacted.contains(p) && !self.answered.contains(p) {
+            self.failed.insert(*p);
+        }
         self.outstanding.remove(p);
     }
     /// the result handed to the caller; `d` is the state it was taken from; `cut_off` = the lookup was
@@ -301,6 +316,10 @@ impl Mon {
                 if !self.contacted.contains(&p.id.raw()) {
                     self.fail("C10", "short result although a known candidate was never contacted".into());
                 }
+            }
+            // ... and so was every candidate it learned of from an answer it accepted
+            if self.learned.iter().any(|k| !self.contacted.contains(k)) {
+                self.fail("C10", "short result although a candidate reported in an accepted answer was never contacted".into());
             }
             // design observation (not a violation, signature prefix "note-C10"): with_config keeps only
             // the first num_results seeds it is given; the others never enter the lookup
